@@ -228,6 +228,25 @@ let cmd_split toks =
     | _ -> partition_lineage fl (nat_of_int vmode) perfect binom noise x v u O) in
   String.concat " " (List.map hx d.d_state @ ["|"] @ List.map hx d.e_state @ ["|"; hx d.d_vol; hx d.e_vol; string_of_int (int_of_nat d.d_pos)])
 
+(* ---- C08: c08hist nops ops...   ops: rx <re list> <pr list> <dre list> <dpr list> | sp id | init | iface | sim
+        -> "SP ids S flat SD flat" as observed by a simulation after the history ---- *)
+let cmd_c08hist toks =
+  let (n, r) = pop_int toks in
+  let rec ops k r acc = if k = 0 then List.rev acc else
+    let (t, r) = pop r in
+    match t with
+    | "rx" -> let (a, r) = pop_list pop_nat r in let (b, r) = pop_list pop_nat r in let (c, r) = pop_list pop_nat r in let (d, r) = pop_list pop_nat r in
+      ops (k - 1) r (OCreateReaction { rx_reactants = a; rx_products = b; rx_dreactants = c; rx_dproducts = d } :: acc)
+    | "sp" -> let (s, r) = pop_nat r in ops (k - 1) r (OAddSpecies s :: acc)
+    | "init" -> ops (k - 1) r (OInitialize :: acc)
+    | "iface" -> ops (k - 1) r (OBuildInterface :: acc)
+    | "sim" -> ops (k - 1) r (OSimulate O :: acc)
+    | _ -> raise (Parse ("c08 op " ^ t)) in
+  let m = run (empty : float mstate) (ops n r []) in
+  let ((d, s), sd) = observe m in
+  let ints l = List.map (fun z -> string_of_int (int_of_z z)) (List.concat l) in
+  String.concat " " (("SP" :: List.map (fun n -> string_of_int (int_of_nat n)) d.df_species) @ ("S" :: ints s) @ ("SD" :: ints sd))
+
 let () =
   try
     while true do
@@ -251,6 +270,7 @@ let () =
           | "c13rules" -> cmd_c13rules toks
           | "c13init" -> cmd_c13init toks
           | "split" -> cmd_split toks
+          | "c08hist" -> cmd_c08hist toks
           | "translate" -> cmd_translate toks
           | "iface" -> cmd_iface toks
           | _ -> "ERR unknown command " ^ cmd)
